@@ -21,6 +21,8 @@ from vlib import core
 
 JAVA_OPTS = ["-Xmx6g"]
 TLC_ARGS = ["-fpmem", "0.1"]
+# world B in the quick tier: two joins at once, the member registered with its other key
+QUICK_B = '{"j12", "jx2", "j1", "j13", "cx1", "cc2", "d4", "d4a", "d2", "e1", "e2", "p2", "pkey", "w2a"}'
 
 
 # ---------------------------------------------------------------- TLA+ values -> python
@@ -287,7 +289,7 @@ def judge_case(ctx, world, cat, g, out, determinism=True, binding=True, label=""
                 for f in ("hash", "ops_root", "sts_root", "suffrage", "err"):
                     if r.get(f) != a.get(f) and f not in diff:
                         diff.append(f)
-        ctx.violation("nondeterministic(%s;%s)" % (kk, ",".join(sorted(diff))),
+        ctx.violation("nondeterministic(%s)" % ",".join(sorted(diff)),
                       "the same proposal %s over the same prior state gave %d different results (%s differ) "
                       "across worker sizes / schedules" % (ids, len(keys), ",".join(sorted(diff))),
                       {"case": sample, "runs": [{k: r.get(k) for k in (
@@ -322,7 +324,7 @@ def judge_case(ctx, world, cat, g, out, determinism=True, binding=True, label=""
     if out.get("after") is not None:
         d = proj_diff(out["after"], spec["want"])
         if d:
-            ctx.violation("projection(%s;%s)" % (kk, ",".join(d)),
+            ctx.violation("projection(%s)" % ",".join(d),
                           "after proposal %s the database holds %s, the specification says %s" % (
                               ids, {f: out["after"].get(f) for f in d}, {f: spec["want"].get(f) for f in d}),
                           {"case": sample, "got": out["after"], "want": spec["want"]})
@@ -332,6 +334,8 @@ def judge_case(ctx, world, cat, g, out, determinism=True, binding=True, label=""
 def replay(ctx, pid, tag, world, groups, free, reps, par=None, timeout=2400):
     """run the grouped cases on the real pipeline; returns harness outputs (same order)"""
     cat = {o["id"]: o for o in world["catalogue"]}
+    for g in groups:  # an order of fewer than two jobs needs no forcing
+        g["scheds"] = [x for x in g["scheds"] if len(x) >= 2]
     cases = [case_input(world, g["ops"], g["scheds"], free, reps, cat) for g in groups]
     inp = os.path.join(ctx.work, "cases-%s.ndjson" % tag)
     res = os.path.join(ctx.work, "res-%s.ndjson" % tag)
@@ -361,7 +365,9 @@ def run(ctx):
     plans = []
     if quick:
         plans.append(("A-mc", "BlockProcess_mc_quick.cfg", {}, None))
-        plans.append(("B-sim", "BlockProcess_sim.cfg", {"World": '"B"'}, (80, 60)))
+        plans.append(("B-mc", "BlockProcess_mc_quick.cfg", {"World": '"B"', "CatIds": QUICK_B}, None))
+        plans.append(("A-sim", "BlockProcess_sim.cfg", {}, (30, 60)))
+        plans.append(("B-sim", "BlockProcess_sim.cfg", {"World": '"B"'}, (30, 60)))
     else:
         plans.append(("A-mc", "BlockProcess_mc_thorough.cfg", {}, None))
         plans.append(("B-mc", "BlockProcess_mc_thorough.cfg", {"World": '"B"'}, None))
